@@ -71,7 +71,12 @@ EXERCISED = (
     "open_socket() again while a command is held for the reconnection; CRC buffers changed in "
     "place; heartbeat intervals below one second and of an hour; times of day carrying "
     "seconds, a UTC offset or the fold flag; an error description withdrawn while the error "
-    "code stays")
+    "code stays; OS-level socket errors reported to the discovery socket during a search; "
+    "subscriptions made on AC and zone objects while init() is still under way; one message "
+    "subscriber failing while another one is still busy with the same frame; retry policies "
+    "and heartbeat configurations built positionally; two consoles in one process whose "
+    "frames announce different record lengths; a version list that changes while the update "
+    "flag stays")
 
 T = """You are helping to evaluate a verification harness by producing a *subtle, realistic regression* in a Python library.
 
